@@ -26,9 +26,17 @@ class RenderHooks(D.DomHooks):
     def call(self, interp, node, fname, args, kwargs, state):
         files = state.env.setdefault('__files', {})
         log = state.env.setdefault('__renderlog', [])
-        if isinstance(node.func, ast.Attribute):
-            attr = node.func.attr
-            recv = interp.ev(node.func.value, state) if isinstance(node.func.value, (ast.Name, ast.Attribute)) else None
+        scripted = fname in ('renderer.textDefault', 'renderer.outputType', 'renderer.find', 'renderer.newFilename')
+        if isinstance(node.func, ast.Attribute) or scripted:
+            if scripted:
+                # reached through a value (textDefault = r.textDefault ; textDefault(x)): the renderer of the scenario
+                attr = fname.split('.', 1)[1]
+                recv = state.env.get('Node.renderer')
+                if not (isinstance(recv, A.Obj) and recv.label == 'renderer'):
+                    recv = next((v for v in state.env.values() if isinstance(v, A.Obj) and v.label == 'renderer'), None)
+            else:
+                attr = node.func.attr
+                recv = interp.ev(node.func.value, state) if isinstance(node.func.value, (ast.Name, ast.Attribute)) else None
             if isinstance(recv, A.Obj) and recv.label == 'renderer':
                 if attr == 'textDefault' and len(args) == 1:
                     x = args[0]
@@ -116,6 +124,8 @@ def scene(m):
     for c in parent.attrs['_dom_childNodes']:
         c.attrs['parentNode'] = parent
     renderer = A.Obj('renderer', {'default': A.Sym('default-renderer', truthy=True)})
+    for nm in ('textDefault', 'outputType', 'find'):
+        renderer.attrs[nm] = A.Sym('extfunc:renderer.%s' % nm, truthy=True)
     return d, parent, renderer, lv
 
 
